@@ -695,6 +695,190 @@ U_TLOOP = Unit(P + '/taper-emitting-loops', ['taper1', 'taper2'], t_taper_loop, 
 
 
 
+# ================================================================ taper1: growth of the pieces (unbounded n)
+def t_taper1_growth(eng):
+    """slice of taper1 (end = 0): from the statement after `minc = ...` to the end, one-dimensional, p2 > p1, so that the
+    smallest increment `minc` is the smallest length `minl` itself.  Preconditions, both established by the preamble:
+    eps = minl/10 and minl*(2^n - 1) >= l  (minl starts as l/npieces and is only ever raised -- the second obligation
+    below checks that syntactically).  Contract (the growth clause of the property): every piece is at least as long as
+    the previous one and at most 2.1 times as long; the pieces double until the remainder, divided evenly, no longer
+    exceeds the next doubled piece, and are equal from then on.
+    Inductive invariant after i pieces, with d = p - p1:
+       state 0:  d = (2^i - 1) minl,  and (i >= 1) the previous step did not switch: l - (2^(i-1) - 1) minl >= (n-i+1) (2^(i-1) minl + eps)
+       state 1:  l - d = (n - i) inc1,  inc1 = length of the previous piece > 0."""
+    n_ = P + '/taper1[growth]/'
+    q = 'taper1'
+    f = eng.get_fnode(q)
+    from pyvc.source import find_stmt, loops_of
+    first = find_stmt(f, lambda x: isinstance(x, ast.Assign) and ast.unparse(x.targets[0]) == 'minc' and x in f.body)
+    k0 = f.body.index(first) + 1
+    loop = [x for x in f.body[k0:] if isinstance(x, ast.For)][0]
+    # (syntactic) the preamble only raises minl after `minl = l / npieces`
+    pre = f.body[:k0 - 1]
+    assigns = [x for st in pre for x in ast.walk(st) if isinstance(x, ast.Assign) and any(ast.unparse(t) == 'minl' for t in x.targets)]
+    first_ok = bool(assigns) and ast.unparse(assigns[0].value).replace(' ', '') == 'l/npieces'
+    npieces = [x for st in pre for x in ast.walk(st) if isinstance(x, ast.Assign) and ast.unparse(x.targets[0]) == 'npieces']
+    np_ok = len(npieces) == 1 and ast.unparse(npieces[0].value).replace(' ', '') == '(1<<n)-1'
+
+    def guarded_raise(a):
+        for st in pre:
+            for x in ast.walk(st):
+                if isinstance(x, ast.If) and a in x.body and len(x.body) == 1 and isinstance(x.test, ast.Compare) \
+                        and len(x.test.ops) == 1:
+                    l_, r_ = ast.unparse(x.test.left), ast.unparse(x.test.comparators[0])
+                    v = ast.unparse(a.value)
+                    if isinstance(x.test.ops[0], ast.Lt) and l_ == 'minl' and r_ == v:
+                        return True
+                    if isinstance(x.test.ops[0], ast.Gt) and r_ == 'minl' and l_ == v:
+                        return True
+        return False
+    eng.oblige(n_ + 'preamble:-minl-starts-as-l/(2^n-1)-and-is-only-ever-raised',
+               first_ok and np_ok and all(guarded_raise(a) for a in assigns[1:]),
+               detail=str([ast.unparse(a) for a in assigns]))
+    epsdef = [x for st in pre for x in ast.walk(st) if isinstance(x, ast.Assign) and ast.unparse(x.targets[0]) == 'eps']
+    eng.oblige(n_ + 'preamble:-eps-is-a-tenth-of-minl', len(epsdef) == 1 and ast.unparse(epsdef[0].value).replace(' ', '') == 'minl/10'
+               and f.body.index(epsdef[0]) > max([f.body.index(st) for st in pre if any(a in list(ast.walk(st)) for a in assigns[:2])] or [0]) - 1)
+    p1 = fresh_real('p1')
+    L = fresh_real('l')
+    n = fresh_int('n')
+    minl = fresh_real('minl')
+    eng.assume(b_and(r_cmp('>=', n, 2), r_cmp('>', L, 0), r_cmp('>', minl, 0)))
+    p2 = r_add(p1, L)
+    eps = r_div(minl, 10)
+    pow2 = eng.uf('pow2', z3.IntSort(), z3.IntSort())
+    P2 = lambda x: SV(pow2(term(x)), 'int')
+    # instances of the power-of-two recurrence the argument needs (the engine adds them for the terms the code shifts by)
+    jj = z3.Int('jj')
+    eng.assume(SV(z3.ForAll([jj], z3.Implies(jj >= 0, z3.And(pow2(jj) >= 1, pow2(jj + 1) == 2 * pow2(jj)))), 'bool'))
+    eng.assume(SV(pow2(0) == 1, 'bool'))
+    eng.assume(r_cmp('>=', r_mul(minl, r_sub(P2(n), 1)), L))
+    has_max = eng.choose(2) == 1
+    max_t = fresh_real('max_t') if has_max else None
+    min_t = fresh_real('min_t')
+    env = {'p1': p1, 'p2': p2, 'n': n, 'lv': L, 'l': L, 'minl': minl, 'minc': minl, 'eps': eps, 'min_t': min_t, 'max_t': max_t}
+    ys = SList()
+
+    def inv(e_, i, vals):
+        st_, pp, inc1 = vals[('local', 'state')], vals[('local', 'p')], vals[('local', 'inc1')]
+        d = r_sub(pp, p1)
+        a = b_and(r_cmp('==', st_, 0), num_eq(d, r_mul(r_sub(P2(i), 1), minl)),
+                  b_or(r_cmp('==', i, 0),
+                       r_cmp('>=', r_sub(L, r_mul(r_sub(P2(r_sub(i, 1)), 1), minl)),
+                             r_mul(r_add(r_sub(n, i), 1), r_add(r_mul(P2(r_sub(i, 1)), minl), eps)))))
+        b = b_and(r_cmp('==', st_, 1), num_eq(r_sub(L, d), r_mul(r_sub(n, i), inc1)), r_cmp('>', inc1, 0),
+                  r_cmp('>=', i, 1))
+        return b_and(num_eq(vals[('yield',)].length(), i), b_or(a, b))
+
+    def check(e_, before, i, it, got):
+        y0, y1 = before[('yield',)], got[('yield',)]
+        added = y1.chunks[-1][1] if y1.chunks and y1.chunks[-1][0] == 'conc' else []
+        if y0.chunks and y0.chunks[-1][0] == 'conc' and len(y1.chunks) == len(y0.chunks):
+            added = added[len(y0.chunks[-1][1]):]
+        if len(added) != 1:
+            e_.oblige(n_ + 'one-piece-per-iteration', False)
+            return
+        a, b = added[0]
+        ln = r_sub(b, a)
+        e_.oblige(n_ + 'piece-has-positive-length', r_cmp('>', ln, 0))
+        was0 = e_.decide(r_cmp('==', before[('local', 'state')], 0))
+        if e_.decide(r_cmp('==', i, 0)):
+            return
+        prev = r_mul(P2(r_sub(i, 1)), minl) if was0 else before[('local', 'inc1')]
+        now0 = e_.decide(r_cmp('==', got[('local', 'state')], 0))
+        last = e_.decide(r_cmp('==', i, r_sub(n, 1)))
+        e_.cover('taper1-step-%s-%s%s' % ('doubling' if was0 else 'steady', 'stays' if now0 == was0 else 'switches', '-last' if last else ''))
+        e_.oblige(n_ + 'piece-at-least-as-long-as-the-previous-one', r_cmp('>=', ln, prev))
+        e_.oblige(n_ + 'piece-at-most-2.1-times-the-previous-one', r_cmp('<=', ln, r_mul(Fraction('2.1'), prev)))
+    carried = [('yield',), ('local', 'p'), ('local', 'state'), ('local', 'inc1')]
+    spec = LoopSpec(carried, None, P + '.taper1.growth', [], check=check, inv=inv, exits=('raise:AssertionError',))
+    eng.loop_specs[(q, loops_of(f).index(loop))] = spec
+    eng.frames.append({'fref': eng.fref(q), 'env': env, 'qual': q, 'node': f})
+    eng.yield_stack.append(ys)
+    env['inc1'] = 1            # never read before it is assigned (state 0 assigns it first); any positive value
+    try:
+        try:
+            for st in f.body[k0:]:
+                eng.exec_stmt(st, env)
+        except PyRaise as ex:
+            eng.oblige(n_ + 'only-the-limit-assertions-may-stop-the-loop', ex.cls == 'AssertionError')
+            return
+    finally:
+        ys = eng.yield_stack.pop()
+        eng.frames.pop()
+    eng.cover('taper1-growth-%d' % has_max)
+
+
+class _TaperSteadyEarly(ast.NodeTransformer):
+    """switch to the steady increment as soon as it is below THREE times the doubled one"""
+
+    def visit_Assign(self, node):
+        if ast.unparse(node.targets[0]) == 'incdif':
+            node.value = ast.parse('np.linalg.norm (inc1) - 3 * np.linalg.norm (inc) - eps').body[0].value
+        return node
+
+
+class _TaperTriple(ast.NodeTransformer):
+    def visit_Assign(self, node):
+        if ast.unparse(node.targets[0]) == 'inc' and '1 << i' in ast.unparse(node.value):
+            node.value = ast.parse('(1 << i) * minc * (3 if i == 2 else 1)').body[0].value
+        return node
+
+
+U_TGROW = Unit(P + '/taper1-growth', ['taper1'], t_taper1_growth, SCH,
+               slices={'taper1': 'from the statement after `minc = ...` to the end (end = 0 branch), one-dimensional end points; the '
+                                 'preamble is represented by two facts about minl and eps that are checked on its text'},
+               canaries=[Canary('taper1-switches-too-early', 'taper1', _TaperSteadyEarly, [P + '/taper1[growth]/piece-at-']),
+                         Canary('taper1-one-piece-tripled', 'taper1', _TaperTriple, [P + '/taper1[growth]/', P + '.taper1.growth'])])
+
+
+# ================================================================ taper1, other end: the mirror image
+def t_taper1_mirror(eng):
+    """taper1 (..., end = 1): the pieces are those of taper1 (p2, p1, ..., end = 0) in reverse order with their end
+    points swapped (so lengths and growth mirror).  The recursive call is replaced by its result, an arbitrary
+    sequence of pieces."""
+    n_ = P + '/taper1[end = 1]/'
+    from . import common as K
+    pieces_len = fresh_int('npieces')
+    eng.assume(r_cmp('>=', pieces_len, 0))
+    fa = eng.uf('piece.a', z3.IntSort(), z3.RealSort())
+    fb = eng.uf('piece.b', z3.IntSort(), z3.RealSort())
+    seq = SSeq(pieces_len, lambda i: (SV(fa(term(i)), 'real'), SV(fb(term(i)), 'real')), 'taper1(p2,p1)')
+    calls = []
+
+    def rec(e_, a, k):
+        calls.append((list(a), dict(k)))
+        return SList([('seq', seq)])
+    eng.summaries['taper1'] = rec
+    eng.loop_specs[('taper1', 0)] = K.yield_all_spec(P + '.taper1.mirror', [], lambda e_, el: (el[1], el[0]))
+    p1, p2 = fresh_real('p1'), fresh_real('p2')
+    n, r, mn, mx = fresh_int('n'), fresh_real('r'), fresh_real('min_t'), fresh_real('max_t')
+    ys = eng.call_qual('taper1', [p1, p2, n, r, mn, mx, 1])
+    eng.cover('taper1-mirror')
+    ok = len(calls) == 1 and len(calls[0][0]) + len(calls[0][1]) == 7
+    endarg = (calls[0][0][6] if len(calls[0][0]) > 6 else calls[0][1].get('end')) if ok else None
+    eng.oblige(n_ + 'computed-from-the-swapped-end-points-with-the-same-limits',
+               b_and(num_eq(calls[0][0][0], p2), num_eq(calls[0][0][1], p1), num_eq(calls[0][0][2], n), num_eq(calls[0][0][3], r),
+                     num_eq(calls[0][0][4], mn), num_eq(calls[0][0][5], mx), endarg == 0) if ok else False)
+    eng.oblige(n_ + 'same-number-of-pieces', num_eq(ys.length(), pieces_len))
+    k = fresh_int('k')
+    eng.assume(b_and(r_cmp('>=', k, 0), r_cmp('<', k, pieces_len)))
+    got = eng.getitem(ys, k)
+    src = seq.at(r_sub(r_sub(pieces_len, 1), k))
+    eng.oblige(n_ + 'piece-k-is-piece-n-1-k-of-the-other-direction-with-its-ends-swapped',
+               b_and(num_eq(got[0], src[1]), num_eq(got[1], src[0])))
+
+
+class _MirrorNoSwap(ast.NodeTransformer):
+    def visit_Yield(self, node):
+        if isinstance(node.value, ast.Tuple) and [ast.unparse(e) for e in node.value.elts] == ['x2', 'x1']:
+            node.value.elts = list(reversed(node.value.elts))
+        return node
+
+
+U_TMIRROR = Unit(P + '/taper1-mirror', ['taper1'], t_taper1_mirror, SCH,
+                 canaries=[Canary('taper1-mirror-without-swapping-ends', 'taper1', _MirrorNoSwap, [P + '/taper1[end = 1]/piece-k'])])
+
+
 # ================================================================ taper1 / taper2: the effective lower limit
 def t_taper_minimum(eng):
     """head slice (up to and including `min_t = ...`): the lower limit used for every piece is max(2.5 radii, minimum)"""
@@ -734,4 +918,4 @@ U_TMIN = Unit(P + '/taper-effective-minimum', ['taper1', 'taper2'], t_taper_mini
               canaries=[Canary('taper1-minimum-replaces-the-radius-floor', 'taper1', _MinOr, [P + '/taper1[effective minimum]/']),
                         Canary('taper2-minimum-replaces-the-radius-floor', 'taper2', _MinOr, [P + '/taper2[effective minimum]/'])])
 
-UNITS = [U_SEG, U_EQ, U_CURVE, U_ARC, U_ROT, U_WT, U_CT, U_HELIX, U_TLOOP, U_TMIN]
+UNITS = [U_SEG, U_EQ, U_CURVE, U_ARC, U_ROT, U_WT, U_CT, U_HELIX, U_TLOOP, U_TGROW, U_TMIRROR, U_TMIN]
